@@ -58,13 +58,58 @@ def chunks(xs, n):
     return [xs[i:i + k] for i in range(0, len(xs), k)]
 
 
+class _HangMark:
+    def __init__(self, kind, seconds, case):
+        self.kind, self.seconds, self.case = kind, seconds, case
+
+
+class _Guarded:
+    """Runs a chunk function; a case whose time budget (core.tick) runs out, or that exhausts the
+    worker's address space, ends the chunk and is reported to the parent."""
+
+    def __init__(self, fn):
+        self.fn = fn
+
+    def __call__(self, c):
+        core._WATCH["guarded"] = True
+        core._WATCH["fired"] = 0
+        try:
+            return self.fn(c)
+        except core.Hang:
+            case, sec = core.current_case()
+            return _HangMark("hang", sec, case)
+        except (MemoryError, RecursionError) as e:
+            case, sec = core.current_case()
+            if case is None:
+                raise
+            return _HangMark(type(e).__name__, sec, case)
+        finally:
+            core.untick()
+            core._WATCH["guarded"] = False
+
+
+def _limit_memory():
+    import resource
+    try:
+        resource.setrlimit(resource.RLIMIT_AS, (12 << 30, 12 << 30))
+    except (ValueError, OSError):
+        pass
+
+
 def pmap(fn, items, nproc=NCPU, chunk=None):
-    """fork-based parallel map over chunks; fn(chunk_list) -> result; returns list of results."""
+    """fork-based parallel map over chunks; fn(chunk_list) -> result; returns list of results.
+    Raises core.HangDetected when the implementation did not terminate on some case."""
     if not items:
         return []
     cs = chunks(items, nproc * 4 if chunk is None else max(1, len(items) // chunk))
+    g = _Guarded(fn)
     if nproc <= 1 or len(cs) == 1:
-        return [fn(c) for c in cs]
-    ctxm = mp.get_context("fork")
-    with ctxm.Pool(nproc) as pool:
-        return pool.map(fn, cs)
+        rs = [g(c) for c in cs]
+    else:
+        ctxm = mp.get_context("fork")
+        with ctxm.Pool(nproc, initializer=_limit_memory) as pool:
+            rs = pool.map(g, cs)
+    marks = [r for r in rs if isinstance(r, _HangMark)]
+    if marks:
+        raise core.HangDetected([(m.kind, m.seconds, m.case) for m in marks])
+    return rs
